@@ -363,10 +363,13 @@ fn plans(w: u64, thorough: bool) -> Vec<Plan> {
 fn scenarios(thorough: bool) -> Vec<Scenario> {
     let mut out = vec![];
     if !thorough {
-        for e in 0..4 {
-            out.push(Scenario { init: 0, pre: vec![], edit: e, info: 0 });
+        for init in 0..3 {
+            for e in 0..EDITS.len() {
+                out.push(Scenario { init, pre: vec![], edit: e, info: (init + e) % 3 });
+            }
         }
-        out.push(Scenario { init: 1, pre: vec![], edit: 1, info: 2 });
+        out.push(Scenario { init: 0, pre: vec![1], edit: 0, info: 0 });
+        out.push(Scenario { init: 0, pre: vec![3, 0], edit: 3, info: 2 });
         return out;
     }
     for init in 0..3 {
@@ -407,7 +410,7 @@ pub fn run(thorough: bool, _seed: u64) -> Report {
         &(if thorough {
             "single replica; scenarios = 3 initial documents (plain; strings with braces/quotes/backslash and numbers; nested flattened objects) x clean pre-edits {none, mix, array+update} x staged edit {update one object, mix of update/create/delete, delete_object only, single-writer array edit, create_object, two staged revisions of one object} x commit metadata {None, {}, nested}; per scenario with W = number of writes of the uninterrupted commit (1 or 2): every single failing write position 1..W, every pair {n,n+1}, every triple {n,n+1,n+2} (later positions hit the retries), and for the .pack and the .delta writes separately the position sets {1},{2},{1,2},{1,2,3}"
         } else {
-            "single replica; 5 scenarios: initial document with two flattened objects and a single-writer array, staged edit {update one object, mix of update/create/delete, delete_object only, array edit}, metadata None; plus a document with braces/quotes/backslash strings, mixed edit, nested metadata; per scenario with W = number of writes of the uninterrupted commit (1 or 2): every single failing write position 1..W and every pair {n,n+1} (the second position hits the first retry)"
+            "single replica; 20 scenarios: 3 initial documents (plain with a single-writer array; strings with braces/quotes/backslash and numbers; nested flattened objects) x staged edit {update one object, mix of update/create/delete, delete_object only, single-writer array edit, create_object, two staged revisions of one object} with commit metadata cycling over {None, {}, nested}, plus 2 scenarios with cleanly committed pre-edits; per scenario with W = number of writes of the uninterrupted commit (1 or 2): every single failing write position 1..W and every pair {n,n+1} (the second position hits the first retry)"
         })
         .to_string(),
         "exhaustive over scenarios x fault plans; one case per scenario, plan and check (result@k, staging@k, stage@k, anchors@k, read@k, reopen@k per failed attempt k; retry, retry-reopen, retry-vs-uninterrupted); non-trivial = a fault fired; 10 s watchdog",
